@@ -248,7 +248,7 @@ def rule_T9p(ctx):
         if orders != {want_order}:
             r.finding(hf["path"], "operand-order:%s:%s" % (D, "/".join(sorted(orders)) or "none"), "-",
                       "%s emits its operands %s; %s" % (D, "/".join(sorted(orders)) or "in no derivable order", ("it is a reviewed right-first construct (%s)" % right_first[D]) if D in right_first else "binary constructs are emitted left operand first, so that the instruction pops the right operand first and the left second"))
-    r.floor("binary definitions examined", n, 30)
+    r.floor("binary definitions examined", n, 20)
     # runtime side of the right-first pair constructor: the first pop becomes the pair's left
     rtm = rt.Model(F, trusted=spec("arity.json")["trusted"])
     orig = rtm.contract
